@@ -56,6 +56,31 @@ Theorem C51_only_least_recently_used_suffix_purged :
                       (others (op_key o) (entries (snd w'))) purged.
 Proof. exact only_lru_purged. Qed.
 
+(* 2b. "Accounted" means what it should: every stored entry is accounted at exactly
+       key length + MemoryUsedBy(value) + sizeof(Entry) + sizeof(IndexItem), a positive uint64_t
+       (so, with 2., memoryUsed() is the exact sum of those sizes over the stored entries). *)
+Theorem C51_every_entry_accounted_at_its_size :
+  forall (V : Type) (vmem : V -> N) (esz isz : N) (tmax : Z)
+         (t0 : Z) (cap : N) (dttl : option Z) (bttl : Z) (ops : list (op V)),
+    cap <= U64MAX -> dttl_ok dttl -> Forall op_ok ops ->
+    Forall (fun e => size_of vmem esz isz (e_key e) (e_val e) = Some (e_mem e) /\ 0 < e_mem e)
+           (entries (snd (snd (clp_run vmem esz isz tmax (t0, clp_new t0 cap dttl bttl) ops)))).
+Proof. exact entries_accounted. Qed.
+
+(* 1b. What get() serves, in plain terms: in every reachable state, get(k) returns value v
+       only if an entry (k, v) is stored whose expiry time has not passed (now <= expires), and
+       returns nothing only if every stored entry with key k (there is at most one) has expired. *)
+Theorem C51_get_serves_exactly_the_unexpired_entry :
+  forall (V : Type) (vmem : V -> N) (esz isz : N) (tmax : Z)
+         (t0 : Z) (cap : N) (dttl : option Z) (bttl : Z) (ops : list (op V)) (k : bytes),
+    cap <= U64MAX -> dttl_ok dttl -> Forall op_ok ops ->
+    let w := snd (clp_run vmem esz isz tmax (t0, clp_new t0 cap dttl bttl) ops) in
+    match snd (clp_get (fst w) (snd w) k) with
+    | Some v => exists e, In e (entries (snd w)) /\ e_key e = k /\ e_val e = v /\ (fst w <= e_expires e)%Z
+    | None => forall e, In e (entries (snd w)) -> e_key e = k -> (e_expires e < fst w)%Z
+    end.
+Proof. exact get_serves_fresh. Qed.
+
 (* 4. The code's counted memory requirement (a chain of overflow-checked additions) is the
       exact mathematical sum when that is a uint64_t and "nothing" otherwise; the expiry time
       is the saturating sum now + ttl ("never" when the clock is negative). *)
@@ -108,5 +133,7 @@ Proof. vm_compute. reflexivity. Qed.
 Print Assumptions C51_refines_lru_ttl_capacity_spec.
 Print Assumptions C51_memory_accounted_and_within_capacity.
 Print Assumptions C51_only_least_recently_used_suffix_purged.
+Print Assumptions C51_every_entry_accounted_at_its_size.
+Print Assumptions C51_get_serves_exactly_the_unexpired_entry.
 Print Assumptions C51_memory_requirement_is_checked_sum.
 Print Assumptions C51_expiry_is_saturating_sum.
